@@ -124,17 +124,42 @@ type sample struct {
 }
 
 func (w *world) Run(t *rt.Tape, trace bool) *core.Result {
-	res := &core.Result{Faults: map[string]int{}}
+	res := &core.Result{Faults: map[string]int{}, Reach: map[string]int{}}
 	core.BeginRun(t)
 	rS, rR, rH := simrand.Stream("S"), simrand.Stream("R"), simrand.Stream("harness")
 	nTrials := 8 + t.Choose(rt.SGen, 40)
-	trials := make([]*trial, nTrials)
+	var trials []*trial
 	smp := sample{Base: "stub base OT (labels in clear)"}
-	for i := range trials {
-		trials[i] = drawTrial(t, rH, i)
-		if i < 6 {
-			smp.Trials = append(smp.Trials, fmt.Sprintf("n=%d %s", trials[i].N, trials[i].desc))
+	if t.Choose(rt.SGen, 4) == 0 {
+		// dense enumeration: every row of one column of the payload matrix (and of
+		// the check batch) for one small batch size, one flip per trial
+		n := []int{1, 8, 9, 64}[t.Choose(rt.SGen, 4)]
+		col := t.Choose(rt.SGen, 128)
+		base := drawTrial(t, rH, 0)
+		rows := (n + 7) / 8 * 8
+		for r := 0; r < rows+256; r++ {
+			tr := &trial{N: n, Choices: make([]bool, n)}
+			for i := range tr.Choices {
+				tr.Choices[i] = base.Choices[i%len(base.Choices)]
+			}
+			if r < rows {
+				tr.Flips = []flip{{Msg: 0, Col: col, Row: r}}
+			} else {
+				tr.Flips = []flip{{Msg: 1, Col: col, Row: r - rows}}
+			}
+			tr.desc = fmt.Sprintf("flips=%v (dense column %d)", tr.Flips, col)
+			trials = append(trials, tr)
 		}
+		nTrials = len(trials)
+		res.Reach["dense-column-enumerations"]++
+	} else {
+		trials = make([]*trial, nTrials)
+		for i := range trials {
+			trials[i] = drawTrial(t, rH, i)
+		}
+	}
+	for i := 0; i < len(trials) && i < 6; i++ {
+		smp.Trials = append(smp.Trials, fmt.Sprintf("n=%d %s", trials[i].N, trials[i].desc))
 	}
 	res.Sample = smp
 	realBase := t.Choose(rt.SGen, 16) == 0
